@@ -217,7 +217,7 @@ func vfC04Judge(ctx *vfCtx, c *vfCaseC04, fault vfFault, ref, run *vfC04Run) {
 				}
 			default:
 				if rec.Res.Err == nil && !(vfC04Tolerant[rec.Name] && same) && !vfC04NeverErrors[rec.Name] {
-					fail("C04/no-error/"+rec.Name, "a request of %s was not written (write #%d failed) but it returned (%q, nil)", rec.Name, fault.At, rec.Res.Val)
+					fail("C04/no-error/"+rec.Name, "a request of %s was not written (write #%d failed; the operation made writes #%d..#%d, %d in the whole run) but it returned (%q, nil)", rec.Name, fault.At, rec.W0, rec.W1-1, run.C2SWrites, rec.Res.Val)
 				}
 			}
 			continue
